@@ -21,7 +21,7 @@ def Node.entry : Node → Entry
   | .leaf e _ => e
   | .dir e _ _ => e
 
-def calcDepth (s : Str) : Nat := count '/' s
+def calcDepth (s : Str) : Nat := if s == ['/'] then 1 else count '/' s + 1   -- D58 fix: `/` is one level above `/usr`
 
 def joinPath (d n : Str) : Str := if endsWith d ['/'] then d ++ n else d ++ ['/'] ++ n
 
